@@ -8,14 +8,16 @@ RULE = ("pool: random client histories (sequential / bursts through gated dials 
         "external session deaths and all reaper ticks k*I up to last op + T + 2I, over I in {1,2,3,5,10,30}s, "
         "T in {1..60}s (T<I, T=I, I not dividing T included), min_idle in {0,1,2,3}; insertions placed exactly `timeout` before a tick; "
         "bpool: histories of new/add/get/close/cleanup_expired/ticks with duplicate and huge seq keys, timeout 0 included; "
-        "poolreal: two real-socket scenarios. Non-trivial = at least one reaper pass after at least one request/insert and >= 3 ops; "
+        "slow-reaper-pass: bare-pool passes with 2-5 victims of which the first 1-2 sit on transports whose shutdown stalls (close waits 1 s), a "
+        "get_idle_session issued 1..1900 ms into the pass (periodic task and cleanup_expired); "
+        "poolreal: three real-socket scenarios. Non-trivial = at least one reaper pass after at least one request/insert and >= 3 ops; "
         "distinct by sha256 of the case.")
-SIDE_LEMMAS = 3      # GeneratedFacts: pool_shape, client_glue_shape, pool_defaults
+SIDE_LEMMAS = 5      # Gen/FactsTimed.v: pool_shape, client_glue_shape, pool_defaults, pool_reap_atomic, client_seq_before_add
 ASSUMPTIONS = ["tokio timers/RwLock/BTreeMap behave as documented; order of independent timers at equal instants is not modelled (generated cases avoid such ties)",
                "`stream completion` is a ghost event: the code base has no such signal (no FIN is ever sent, C08/F1)",
                "the model is tied to session_pool.rs / client.rs by differential execution on the cases counted below (sampling) and by the regenerated shape constants"]
 Case = Case
-OWN = ("malformed", "request_failed", "handed_closed", "closed_outside", "reaper_closed_busy", "min_idle", "surplus")
+OWN = ("malformed", "request_failed", "handed_closed", "closed_outside", "reaper_closed_busy", "min_idle", "surplus", "closed_in_use", "identity")
 
 
 def corpus_cases():
@@ -35,6 +37,10 @@ def gen_cases(tier, seed):
     for i in range(n):
         a = TM.gen_bare_history(r, long=(tier != "quick" and i % 3 == 0))
         cs.append(Case("b%d" % i, "bpool", a, "bare-api", TM.pool_nontrivial(a)))
+    n = 40 if tier == "quick" else 600
+    for i in range(n):
+        a = TM.gen_slow_pass(r)
+        cs.append(Case("sp%d" % i, "bpool", a, "slow-reaper-pass", True))
     return cs
 
 
